@@ -675,3 +675,288 @@ REG.add(Contract(MO, "_sample_chain", "C14", [("args", TTuple([TInt(), TInt()]))
                  loops={0: LoopSpec(_chain_inv, _chain_loop_mod)}, key="_sample_chain",
                  note="`sampler` is the module global of cobra.sampling.optgp (set by mp_init) as a ghost parameter; n >= 0, thinning >= 1, "
                       "nproj >= 1, n_samples >= 0"))
+
+
+# ================================================================ OptGPSampler.sample
+REG.add(Contract("multiprocessing/pool.py", "Pool.map", "C14", [("self", TNone())], [Case("any")], assumed=True, key="Pool.map",
+                 note="ProcessPool(p, initializer, initargs) / multiprocessing.Pool: every worker runs initializer(*initargs) once on its own "
+                      "copy of the arguments as they are when the pool is created; pool.map(f, items, chunksize) returns the list "
+                      "[f(items[0]), ..., f(items[len-1])] IN THE ORDER OF THE ITEMS, each f(x) evaluated once by some worker in the state "
+                      "the initializer left (for _sample_chain: its proved contract - it writes no sampler field but `retries`, which it "
+                      "does not read before returning it, so earlier tasks of the same worker do not matter except for that count); the "
+                      "parent's objects are not written by the workers; a task's exception is re-raised in the parent; __exit__ does not "
+                      "swallow exceptions"))
+
+RET = z3.Function("task:retries", z3.IntSort(), z3.IntSort())          # what task j returned: (RET(j), CH(j))
+CH = z3.Function("task:chain", z3.IntSort(), N.NP)
+T_ROWS = z3.Function("task:rows", z3.IntSort(), IntNP)                 # the ghost arrays of task j (see _sample_chain)
+T_ROWIT = z3.Function("task:row_it", z3.IntSort(), IntInt)
+T_WRITTEN = z3.Function("task:written", z3.IntSort(), IntBool)
+T_PTS = z3.Function("task:pts", z3.IntSort(), IntNP)
+ISUM = z3.Function("isum", IntInt, z3.IntSort(), z3.IntSort())         # isum(F, n) = F[0] + ... + F[n-1]
+
+
+def _is_fn(v, kind, name):
+    return isinstance(v, VFunc) and v.kind == kind and v.a == name
+
+
+def o_global(eng, name):
+    if name == "ProcessPool":
+        return VFunc("abstract", "ProcessPool")
+    if name in ("zip", "list"):
+        return VFunc("abstract", "py:" + name)
+    if name == "_sample_chain":
+        return VFunc("abstract", "_sample_chain")         # applied by its proved contract; a direct call is recorded with its arguments
+    return None
+
+
+def o_binop(eng, st, op, a, b):
+    """[x] * k  (a one-element list display repeated k times): the sequence x, x, ..., x of length max(k, 0)"""
+    import ast
+    if isinstance(op, ast.Mult) and isinstance(a, VObj) and a.kind == "list" and isinstance(b, VInt):
+        seq = B.to_seq(eng, st, a)
+        if seq is not None and seq.known_len == 1:
+            x = seq.get(st, z3.IntVal(0))
+            n = z3.If(b.t > 0, b.t, 0)
+            out = VSeq(n, lambda s, i, x=x: x, known_len=None, tag="replist")
+            return [("ok", st, out)]
+    return None
+
+
+def o_getattr(eng, st, v, name):
+    if isinstance(v, VObj) and v.cls == "ProcessPool":
+        return [("ok", st, VFunc("bound", v, name))]
+    if isinstance(v, N.VNp) and name == "astype" and ("ceil", v.t.get_id()) in st.ghost:
+        return [("ok", st, VFunc("abstract", "ceil.astype", st.ghost[("ceil", v.t.get_id())]))]
+    if isinstance(v, VConc) and isinstance(v.py, tuple) and v.py[0] == "module" and v.py[1] == "numpy" and name in ("ceil", "vstack"):
+        return [("ok", st, VFunc("abstract", "numpy." + name))]
+    return None
+
+
+def _task_env(me, w0, c, j, A):
+    """entry / exit state and result of task j = _sample_chain((c, j)) in a worker, named by the task functions"""
+    s1 = w0.updobj(me.oid, **{"attr:retries": VInt(RET(j))})
+    s1 = s1.setghost("rows", T_ROWS(j)).setghost("row_it", T_ROWIT(j)).setghost("written", T_WRITTEN(j)).setghost("pts", T_PTS(j)) \
+        .setghost("rows_of", A)
+    return {"args": VTuple((VInt(c), VInt(j))), "sampler": me}, s1, VTuple((VInt(RET(j)), N.VNp(CH(j))))
+
+
+def tasks_ok(eng, me, w0, c, P):
+    """for EVERY task index j in [0, P): the post-condition of _sample_chain((c, j)) evaluated in the worker state"""
+    j = qv("tj")
+    A = chain_array(c, at(w0, me, "center").t)
+    a, s1, res = _task_env(me, w0, c, j, A)
+    return FA([j], z3.Implies(z3.And(0 <= j, j < P), _chain_post(Env(a, w0, s1, res=res, eng=eng))), patterns=[CH(j)])
+
+
+def o_call_abstract(eng, st, f, pos, kw):
+    if f.a == "_sample_chain":
+        out = []
+        for k, s, v in eng.apply_contract(st, REG.get("_sample_chain"), list(pos), kw):
+            out.append((k, s.setghost("chain_calls", _trace(s, "chain_calls") + ({"pos": tuple(pos), "kw": dict(kw), "res": v},)), v))
+        return out
+    if f.a == "py:zip":
+        if len(pos) == 2 and isinstance(pos[0], VSeq) and pos[0].tag == "replist" and isinstance(pos[1], VSeq) and pos[1].tag == "range":
+            a, b = pos
+            n = z3.If(a.n < b.n, a.n, b.n)
+            out = VSeq(n, lambda s, i: VTuple((a.get(s, i), b.get(s, i))), known_len=None, tag="argsvec")
+            return [("ok", st.setghost(("argsvec", id(out)), (a.get(st, z3.IntVal(0)), n)), out)]
+        raise Unsupported(f"zip of something else than ([x] * k, range(k)): {pos!r} {[getattr(p, 'tag', None) for p in pos]}")
+    if f.a == "py:list":
+        if len(pos) == 1 and isinstance(pos[0], VSeq) and pos[0].tag == "argsvec":
+            return [("ok", st, pos[0])]
+        return eng.construct(st, "list", pos, kw)
+    if f.a == "py:sum":
+        from pyvc import comprehension as C
+        if len(pos) == 1 and isinstance(pos[0], C.VGen) and pos[0].seq.tag == "poolresults" and pos[0].cond is None and isinstance(pos[0].elt, VInt):
+            g = pos[0]
+            F = fresh("summand", IntInt)
+            k = qv("sk")
+            st = st.assume(FA([k], F[k] == g.elt_at(k).t, patterns=[F[k]]))
+            return [("ok", st.setghost("isum", (F, g.seq.n)), VInt(ISUM(F, g.seq.n)))]
+        return None
+    if f.a == "numpy.ceil":
+        # ASSUMED exact: float division of two ints and np.ceil (true for operands below 2**53); ceil(x / y).astype(int) = the least
+        # integer c with c * y >= x (y > 0)
+        if len(pos) == 1 and isinstance(pos[0], VReal) and z3.is_app_of(pos[0].v, z3.Z3_OP_DIV):
+            num, den = pos[0].v.arg(0), pos[0].v.arg(1)
+            c = fresh("ceil", z3.IntSort())
+            cr = z3.ToReal(c)
+            st = st.assume(z3.Implies(den > 0, z3.And(cr * den >= num, (cr - 1) * den < num)), z3.Implies(z3.And(den > 0, num >= 0), c >= 0))
+            out = N.VNp(fresh("np:ceil", N.NP))
+            return [("ok", st.setghost(("ceil", out.t.get_id()), c), out)]
+        raise Unsupported("np.ceil of something else than an int / int quotient")
+    if f.a == "ceil.astype":
+        if len(pos) == 1 and isinstance(pos[0], VClass) and pos[0].name == "int" and not kw:
+            return [("ok", st, VInt(f.b))]
+        raise Unsupported("np.ceil(..).astype(<not int>)")
+    if f.a == "numpy.vstack":
+        out = N.VNp(fresh("np:vstack", N.NP))
+        return [("ok", st.setghost("vstack", {"list": pos[0] if pos else None, "state": st, "res": out}), out)]
+    if f.a == "ProcessPool":
+        # recorded; the state every worker starts in is the state at this moment after initializer(*initargs) - by the PROVED contract of
+        # mp_init when that is the initializer
+        procs = pos[0] if pos else kw.get("processes")
+        init, args = kw.get("initializer"), kw.get("initargs")
+        w0 = None
+        if _is_fn(init, "repo", "mp_init") and isinstance(args, VTuple) and len(args.items) == 1 and isinstance(args.items[0], VObj):
+            outs = list(eng.apply_contract(st, REG.get("mp_init"), list(args.items), {}))
+            if len(outs) == 1 and outs[0][0] == "ok":
+                w0 = outs[0][1]
+        from pyvc.state import alloc_obj
+        st2, pool = alloc_obj(st, "ProcessPool", {})
+        info = {"w0": w0, "processes": procs, "initializer": init, "initargs": args, "extra_pos": len(pos) > 1,
+                "extra_kw": sorted(set(kw) - {"processes", "initializer", "initargs"})}
+        return [("ok", st2.setghost(("pool", pool.oid), info).setghost("pool_trace", _trace(st2, "pool_trace") + (("create", pool.oid, info),)), pool)]
+    return None
+
+
+def _pool_map(eng, st, pool, pos, kw):
+    info = st.ghost.get(("pool", pool.oid))
+    if info is None or len(pos) != 2 or not isinstance(pos[1], VSeq) or pos[1].tag != "argsvec":
+        raise Unsupported("pool.map of something else than the (n_process, index) pairs")
+    f, items = pos
+    w0 = info["w0"]
+    x, P = st.ghost[("argsvec", id(items))]
+    if w0 is None or not _is_fn(f, "abstract", "_sample_chain") or not isinstance(x, VInt):
+        raise Unsupported("pool.map with an initializer / task this module knows nothing about")
+    from pyvc.apply import ASSUMED_USED
+    ASSUMED_USED["Pool.map"] = REG.get("Pool.map").note
+    me = w0.ghost[("global", "sampler")]
+    con = REG.get("_sample_chain")
+    # the precondition of the task is an OBLIGATION, for an arbitrary task index, in the worker state (with the parent's facts)
+    j0 = fresh("task_index", z3.IntSort())
+    from pyvc.state import State
+    sw = State(st.pc, st.frames, w0.heap, w0.objs, w0.ghost).assume(0 <= j0, j0 < P)
+    eng.oblige(sw, con.pre(Env({"args": VTuple((x, VInt(j0))), "sampler": me}, sw, eng=eng)), "call:_sample_chain/pre (pool task)", kind="callpre")
+    # the items are exactly the pairs (n_process, j), j = 0 .. P-1
+    it = items.get(sw, j0)
+    eng.oblige(sw, z3.And(it.items[0].t == x.t, it.items[1].t == j0) if isinstance(it, VTuple) and len(it.items) == 2 and
+               all(isinstance(y, VInt) for y in it.items) else z3.BoolVal(False), "pool.map/item j is (n_process, j)", kind="side")
+    call = {"f": f, "x": x, "P": P, "chunksize": kw.get("chunksize"), "extra": sorted(set(kw) - {"chunksize"}), "w0": w0}
+    st = st.setghost("pool_trace", _trace(st, "pool_trace") + (("map", pool.oid, call),))
+    ok = st.assume(tasks_ok(eng, me, w0, x.t, P))
+    res = VSeq(P, lambda s, i: VTuple((VInt(RET(i)), N.VNp(CH(i)))), known_len=None, tag="poolresults")
+    return [("ok", ok, res), ("raise", st, VExc("RuntimeError"))]
+
+
+def o_call_method(eng, st, recv, name, pos, kw):
+    if isinstance(recv, VObj) and recv.cls == "ProcessPool":
+        tr = _trace(st, "pool_trace")
+        if name == "__enter__":
+            return [("ok", st.setghost("pool_trace", tr + (("enter", recv.oid, None),)), recv)]
+        if name == "__exit__":
+            return [("ok", st.setghost("pool_trace", tr + (("exit", recv.oid, None),)), VBool(False))]
+        if name == "map":
+            return _pool_map(eng, st, recv, pos, kw)
+        raise Unsupported(f"ProcessPool.{name}")
+    return None
+
+
+HOOKS_O = chain_hooks({"global": o_global, "binop": o_binop, "getattr": o_getattr, "call_abstract": o_call_abstract,
+                       "call_method": o_call_method}, HOOKS_S)
+
+
+def _optgp_self():
+    def mk(st, name):
+        st, me = sampler_t("OptGPSampler").make(st, name)
+        return st.setghost("the_sampler", me), me
+    return TCustom(mk)
+
+
+def _osample_pre(E):
+    return z3.And(_sample_pre(E), at(E.s0, E["self"], "processes").t >= 1)
+
+
+def global_mean(ns, center, chains, total):
+    """(n_samples * center + np.atleast_2d(chains).sum(0)) / (n_samples + total)"""
+    return N.term("div", N.term("add", N.term("mul", N.of_int(ns), center),
+                                N.term("call", N.term("attr.sum", N.term("numpy.atleast_2d", chains)), N.of_int(0))), N.of_int(ns + total))
+
+
+def _osample_post(fluxes):
+    def post(E):
+        me, s0, s1 = E["self"], E.s0, E.s1
+        T, ns0, n, P = at(s0, me, "thinning").t, at(s0, me, "n_samples").t, E["n"].t, at(s0, me, "processes").t
+        tr = _trace(s1, "pool_trace")
+        cs, data = frame_columns(E, fluxes)
+        if data is None:
+            return z3.And(*cs)
+        fwd, rev = at(s0, me, "fwd_idx").t, at(s0, me, "rev_idx").t
+        if len(tr) == 0:
+            # ---- serial: one chain of n samples, index 0, run on the sampler itself
+            total = n
+            chains = chain_array(n, at(s0, me, "center").t)
+            calls = _trace(s1, "chain_calls")
+            good = (len(calls) == 1 and len(calls[0]["pos"]) == 1 and not calls[0]["kw"] and isinstance(calls[0]["pos"][0], VTuple)
+                    and len(calls[0]["pos"][0].items) == 2 and all(isinstance(y, VInt) for y in calls[0]["pos"][0].items))
+            cs.append(z3.BoolVal(bool(good)))
+            if good:
+                cs.append(z3.And(calls[0]["pos"][0].items[0].t == n, calls[0]["pos"][0].items[1].t == 0))      # _sample_chain((n, 0))
+            cs += [z3.Not(P > 1), z3.BoolVal(s1.ghost.get(("global", "sampler")) is me),
+                   chain_rows_ok(s0, me, s1, T, n), only_rows(s1, n)]
+        else:
+            # ---- parallel: `processes` chains of ceil(n / processes) samples each, chain j with index j, results in index order
+            if len(tr) != 4 or [t[0] for t in tr] != ["create", "enter", "map", "exit"] or len({t[1] for t in tr}) != 1:
+                return z3.BoolVal(False)
+            info, call = tr[0][2], tr[2][2]
+            c = call["x"].t
+            total = c * P
+            args = info["initargs"]
+            cs.append(z3.BoolVal(_is_fn(info["initializer"], "repo", "mp_init") and not info["extra_pos"] and not info["extra_kw"]
+                                 and isinstance(args, VTuple) and len(args.items) == 1 and args.items[0] is me
+                                 and _is_fn(call["f"], "abstract", "_sample_chain") and not call["extra"]
+                                 and isinstance(call["chunksize"], VInt)))
+            cs.append(info["processes"].t == P if isinstance(info["processes"], VInt) else z3.BoolVal(False))
+            cs += [P > 1, call["P"] == P, c * P >= n, (c - 1) * P < n,           # n_process = ceil(n / processes), one task per process
+                   total >= n, total < n + P]                                     # at least n, fewer than n + processes rows
+            # the workers copy the sampler as it is at entry (nothing was written before the pool is created)
+            w0 = call["w0"]
+            cs.append(z3.BoolVal(all(at(w0, me, k) is at(s0, me, k) for k in INT_ATTRS + NP_ATTRS)))
+            vs = s1.ghost.get("vstack")
+            if vs is None or not isinstance(vs["list"], VObj) or "elem" not in vs["state"].objs[vs["list"].oid]:
+                return z3.BoolVal(False)
+            rec = vs["state"].objs[vs["list"].oid]
+            if rec["elem"].sort().range() != N.NP:
+                return z3.BoolVal(False)
+            chains = vs["res"].t
+            j = qv("vj")
+            cs.append(z3.And(rec["len"] == P, FA([j], z3.Implies(z3.And(0 <= j, j < P), rec["elem"][j] == CH(j)), patterns=[rec["elem"][j]])))
+            cs.append(tasks_ok(E.eng, me, w0, c, P))
+            sm = s1.ghost.get("isum")
+            if sm is None:
+                return z3.BoolVal(False)
+            k = qv("rk")
+            cs.append(z3.And(at(s1, me, "retries").t == at(s0, me, "retries").t + ISUM(sm[0], sm[1]), sm[1] == P,
+                             FA([k], sm[0][k] == RET(k), patterns=[sm[0][k]])))
+        cs.append(data == (flux_columns(chains, fwd, rev) if fluxes else chains))
+        cs.append(at(s1, me, "n_samples").t == ns0 + total)                      # the number of samples ACTUALLY generated
+        c1 = at(s1, me, "center")
+        cs.append(c1.t == global_mean(ns0, at(s0, me, "center").t, chains, total) if isinstance(c1, N.VNp) else z3.BoolVal(False))
+        return z3.And(*cs)
+    return post
+
+
+def _osample_mod(E):
+    me = E["self"]
+    return [("attr", me, "n_samples", lambda st: (st, VInt(fresh("n_samples", z3.IntSort())))),
+            ("attr", me, "retries", lambda st: (st, VInt(fresh("retries", z3.IntSort())))),
+            ("attr", me, "center", lambda st: (st, N.VNp(fresh("np:center", N.NP)))),
+            ("ghost", ("global", "sampler"), lambda st: me), ("ghost", "pool_trace", lambda st: ()), ("ghost", "vstack", lambda st: None),
+            ("ghost", "isum", lambda st: None), ("ghost", "df_calls", lambda st: ()), ("ghost", "chain_calls", lambda st: ())] + _chain_mod(Env({"args": VTuple((E["n"], VInt(0))), "sampler": me}, E.s0))[1:]
+
+
+def _osample_cases():
+    out = _sample_cases(_osample_post)
+    for c in out:
+        c.modifies_on_raise = _osample_mod
+        c.ensures_on_raise = lambda E: z3.BoolVal([t[1] for t in _trace(E.s1, "pool_trace") if t[0] == "enter"] ==
+                                                  [t[1] for t in _trace(E.s1, "pool_trace") if t[0] == "exit"])
+    return out
+
+
+REG.add(Contract(MO, "OptGPSampler.sample", "C14", [("self", _optgp_self()), ("n", TInt()), ("fluxes", _fl)], _osample_cases(),
+                 pre=_osample_pre, modifies=_osample_mod, axioms=lambda E: rp_axioms(), result=_res_np("DataFrame"), props=["C14", "C16"],
+                 key="OptGPSampler.sample",
+                 note="n >= 0, processes >= 1, thinning >= 1, nproj >= 1, n_samples >= 0; the pool by the assumed ordered-map contract Pool.map; "
+                      "n / processes and np.ceil exact"))
